@@ -19,7 +19,7 @@ import (
 
 // nativeTunnel drives the same scenario over a real in-memory connection with
 // the real crypto/tls and a real MITM authority (replay only).
-func nativeTunnel(p *Proxy, connect, inner []byte, startsTLS bool, n int, shaped, tlsListener bool) {
+func zznativeTunnel(p *Proxy, connect, inner []byte, startsTLS bool, n int, shaped, tlsListener bool) {
 	ca, priv, err := mitm.NewAuthority("verif", "verif", time.Hour)
 	if err != nil {
 		panic(err)
@@ -74,11 +74,11 @@ func nativeTunnel(p *Proxy, connect, inner []byte, startsTLS bool, n int, shaped
 	if tlsListener {
 		sc = tls.Server(sc, mc.TLS())
 	}
-	serveConn(p, sc)
+	zzserveConn(p, sc)
 	<-done
 }
 
-type tunnelRec struct {
+type zztunnelRec struct {
 	scheme, host string
 	secure       bool
 	hasTLS       bool
@@ -88,14 +88,14 @@ type tunnelRec struct {
 }
 
 // tunnelMod records what the modifiers are shown for every request.
-type tunnelMod struct {
-	recs     []tunnelRec
+type zztunnelMod struct {
+	recs     []zztunnelRec
 	hijackAt int // index of the request whose modifier hijacks (-1 none)
 }
 
-func (m *tunnelMod) ModifyRequest(req *http.Request) error {
+func (m *zztunnelMod) ModifyRequest(req *http.Request) error {
 	ctx := NewContext(req)
-	r := tunnelRec{scheme: req.URL.Scheme, host: req.URL.Host, secure: ctx.Session().IsSecure(), hasTLS: req.TLS != nil, session: ctx.Session()}
+	r := zztunnelRec{scheme: req.URL.Scheme, host: req.URL.Host, secure: ctx.Session().IsSecure(), hasTLS: req.TLS != nil, session: ctx.Session()}
 	if len(m.recs) == m.hijackAt {
 		c, _, err := ctx.Session().Hijack()
 		vf.Assert(err == nil, "hijack-succeeds")
@@ -107,7 +107,7 @@ func (m *tunnelMod) ModifyRequest(req *http.Request) error {
 	m.recs = append(m.recs, r)
 	return nil
 }
-func (m *tunnelMod) ModifyResponse(res *http.Response) error { return nil }
+func (m *zztunnelMod) ModifyResponse(res *http.Response) error { return nil }
 
 // VerifC05Tunnel: a CONNECT to example.com:443 on a proxy with MITM enabled,
 // followed inside the tunnel by either a TLS hello and 1..N requests in any
@@ -137,11 +137,11 @@ func VerifC05Tunnel() {
 	if vf.Choice("hijack", 2) == 1 {
 		hijackAt = 1 + vf.Choice("hijack-at", n) // a tunnelled request (index 0 is the CONNECT itself)
 	}
-	o := &origin{}
+	o := &zzorigin{}
 	o.answer = func(i int, req *http.Request) (*http.Response, error) {
-		return rawResponse(resSpec{status: 200, hval: "o", body: []byte("ok")}.wire(), req)
+		return zzrawResponse(zzresSpec{status: 200, hval: "o", body: []byte("ok")}.wire(), req)
 	}
-	m := &tunnelMod{hijackAt: hijackAt}
+	m := &zztunnelMod{hijackAt: hijackAt}
 	p := NewProxy()
 	p.SetRoundTripper(o)
 	p.SetRequestModifier(m)
@@ -162,16 +162,16 @@ func VerifC05Tunnel() {
 		if tlsListener {
 			segs[0] = append([]byte{0x16, 0x01}, segs[0]...) // the hello of the outer connection
 		}
-		var cc net.Conn = newClientConn("client", true, segs...)
+		var cc net.Conn = zznewClientConn("client", true, segs...)
 		if shaped {
 			cc = trafficshape.NewListener(nil).GetTrafficShapedConn(cc)
 		}
 		if tlsListener {
 			cc = tls.Server(cc, &tls.Config{})
 		}
-		serveConn(p, cc)
+		zzserveConn(p, cc)
 	} else {
-		nativeTunnel(p, connect, inner.Bytes(), startsTLS, n, shaped, tlsListener)
+		zznativeTunnel(p, connect, inner.Bytes(), startsTLS, n, shaped, tlsListener)
 	}
 
 
